@@ -46,7 +46,10 @@ Theorem C18_otherwise_idle_and_restart : forall f fs evs s' outs,
   (halted s' = false -> started s' = true ->
      step FIXED map_ userbin heap verify s' Disc = (halt s', [OFlag FLAG_IDLE; ORestart])) /\
   (downloading s' = true -> downloaded s' = expected s' -> halted s' = true) /\
-  (In OUpgradeReboot outs -> In (OFlag FLAG_FINISH) outs).
+  (In OUpgradeReboot outs -> In (OFlag FLAG_FINISH) outs) /\
+  (* the error (reconnect) callback abandons an undecided update as well, whatever the espconn error code *)
+  (halted s' = false -> started s' = true -> forall code,
+     step FIXED map_ userbin heap verify s' (Err code) = (halt s', [OFlag FLAG_IDLE; ORestart])).
 Proof. exact (C18_otherwise_idle_and_restart_thm map_ userbin heap verify). Qed.
 
 (* A download (hence any flash operation, C18_no_download_no_write) starts only when the text between the first
